@@ -51,7 +51,7 @@ ConvertRefused == {"blank-action", "blank-security", "blank-shares", "neg-shares
 \* accepted as rows; the history of the security is refused for certain when it is processed
 SureRefused == {"oversell", "sfla-reg", "roc-reg"}
 \* accepted as rows; whether the history is acceptable depends on the holdings at that point
-Contextual == {"roc-none", "sell-gain", "sell-loss", "sell-loss-third", "sell-usd", "sell-all", "sell-af", "sell-sfl", "sell-sfl-forced", "roc", "sfla", "split-rev", "year-2100"}
+Contextual == {"roc-none", "sell-sfl-zero", "sell-sfl-zero-forced", "sell-gain", "sell-loss", "sell-loss-third", "sell-usd", "sell-all", "sell-af", "sell-sfl", "sell-sfl-forced", "roc", "sfla", "split-rev", "year-2100"}
 Harmless == {"buy", "buy-hi", "buy-usd", "buy-af", "buy-reg", "buy-bar", "split", "split-third", "year-1900", "sfl-on-buy", "settle-before-trade", "quote-open", "nul-byte"}
 RowClasses == ParseRefused \cup RatesRefused \cup ConvertRefused \cup SureRefused \cup Contextual \cup Harmless \cup {"bad-date", "bad-date-fmt"}
 
